@@ -65,6 +65,27 @@ pub trait AuthorizationHandler {
 //@|    ensures self.may_answer(crate::server::task::AuthCall::WriteMultipleRegisters(_unit_id, _range), _role@, r),
 }
 
+// [C08] the built-in read-only policy allows every read and denies every write, whatever the unit, range or role
+//@item rodbus/src/server/handler.rs | ReadOnlyAuthorizationHandler | derive=Clone,Copy
+pub open spec fn read_only_answer(call: crate::server::task::AuthCall) -> Authorization {
+    match call {
+        crate::server::task::AuthCall::ReadCoils(_, _) | crate::server::task::AuthCall::ReadDiscreteInputs(_, _)
+        | crate::server::task::AuthCall::ReadHoldingRegisters(_, _) | crate::server::task::AuthCall::ReadInputRegisters(_, _) => Authorization::Allow,
+        _ => Authorization::Deny,
+    }
+}
+impl AuthorizationHandler for ReadOnlyAuthorizationHandler {
+    open spec fn may_answer(&self, call: crate::server::task::AuthCall, role: Seq<char>, d: Authorization) -> bool { d == read_only_answer(call) }
+//@fn rodbus/src/server/handler.rs | AuthorizationHandler for ReadOnlyAuthorizationHandler::read_coils | tags=C08
+//@fn rodbus/src/server/handler.rs | AuthorizationHandler for ReadOnlyAuthorizationHandler::read_discrete_inputs | tags=C08
+//@fn rodbus/src/server/handler.rs | AuthorizationHandler for ReadOnlyAuthorizationHandler::read_holding_registers | tags=C08
+//@fn rodbus/src/server/handler.rs | AuthorizationHandler for ReadOnlyAuthorizationHandler::read_input_registers | tags=C08
+//@fn rodbus/src/server/handler.rs | AuthorizationHandler for ReadOnlyAuthorizationHandler::write_single_coil | tags=C08
+//@fn rodbus/src/server/handler.rs | AuthorizationHandler for ReadOnlyAuthorizationHandler::write_single_register | tags=C08
+//@fn rodbus/src/server/handler.rs | AuthorizationHandler for ReadOnlyAuthorizationHandler::write_multiple_coils | tags=C08
+//@fn rodbus/src/server/handler.rs | AuthorizationHandler for ReadOnlyAuthorizationHandler::write_multiple_registers | tags=C08
+}
+
 // ---- the application as seen by the server: one abstract handler state per configured unit id ----
 pub struct HState {
     pub log: Seq<HandlerEvent>,
